@@ -11,6 +11,14 @@ import (
 	"time"
 )
 
+var slowQ = func() time.Duration {
+	if v := os.Getenv("GOSYM_SLOWQ"); v != "" {
+		n, _ := strconv.Atoi(v)
+		return time.Duration(n) * time.Millisecond
+	}
+	return 0
+}()
+
 // Solver wraps one live SMT solver process speaking SMT-LIB2 on stdin/stdout.
 type Solver struct {
 	kind string
@@ -295,6 +303,13 @@ func (s *Solver) Check(extra *Term, model []*Term) (res string, vals map[string]
 	}
 	s.raw("(pop 1)\n")
 	d := time.Since(start)
+	if slowQ > 0 && d > slowQ && extra != nil {
+		str := extra.String()
+		if len(str) > 600 {
+			str = str[:600]
+		}
+		fmt.Fprintf(os.Stderr, "SLOWQ %.2fs %s defs=%d : %s\n", d.Seconds(), res, len(s.defined), str)
+	}
 	s.Time += d
 	if d > s.MaxQuery {
 		s.MaxQuery = d
